@@ -697,7 +697,7 @@ func genRouteCase(w *wire.World, g *sip.Gen, i int) *routeCase {
 			texts[k] = e.Text
 		}
 		values, _ := g.JoinList(texts)
-		name := []string{"Route", "route", "ROUTE", "RoUtE"}[g.R.Intn(4)]
+		name := []string{"Route", "route", "ROUTE", "RoUtE", "route*", "ROUTE*", "RoUtE*"}[g.R.Intn(7)]
 		if reuse != nil {
 			values, name = reuse.values, reuse.name
 		} else {
@@ -714,8 +714,16 @@ func genRouteCase(w *wire.World, g *sip.Gen, i int) *routeCase {
 			routeMemo[memoKey] = ms
 		}
 		var hs []sip.Header
-		for _, v := range values {
-			hs = append(hs, sip.Header{Name: name, Value: v})
+		for k, v := range values {
+			ln := name
+			if strings.HasSuffix(name, "*") {
+				// every line in a spelling of its own, the canonical one never first
+				ln = strings.TrimSuffix(name, "*")
+				if k > 0 {
+					ln = []string{"Route", "rOUTE", "Route", "route"}[(k-1)%4]
+				}
+			}
+			hs = append(hs, sip.Header{Name: ln, Value: v})
 		}
 		// anywhere: before Via, after Via, at the end
 		switch g.R.Intn(3) {
@@ -726,6 +734,12 @@ func genRouteCase(w *wire.World, g *sip.Gen, i int) *routeCase {
 		default:
 			wire.InsertBefore(m, "content-length", hs...)
 		}
+	}
+	if g.R.Intn(6) == 0 {
+		// a request well beyond 1300 bytes: the transport of its next hop is still what the
+		// Route entry / the static route / the backend URL says
+		wire.InsertBefore(m, "content-length", sip.Header{Name: "X-Pad", Value: g.Alnum(1400, 2600)})
+		cell = append(cell, "long")
 	}
 	c.msg = m
 	c.rreq = wire.RReq{Routes: entries, ToHost: toHost, RURI: ruri, RHost: rhost, RPort: rport, RTransp: rtr}
